@@ -176,6 +176,62 @@ func c05TakesStripe(lo, hi int) {
 	vfAssert(done, c[0]+"-completes-once-the-stripe-is-free")
 }
 
+// ... and every executor that changes the key (its value or its deadline) holds the stripe exclusively: with
+// the stripe read-held by the harness such a command must not complete (two of them - or one and a reader -
+// would otherwise run inside each other: PERSIST's get / close / delete on the deadline record, list and
+// hash updates in place, ...).
+var c05WriterCases = [][]string{
+	{"set", "k", "v"}, {"setnx", "k", "v"}, {"setex", "k", "10", "v"}, {"append", "k", "v"}, {"incr", "k"}, {"decr", "k"},
+	{"incrby", "k", "2"}, {"decrby", "k", "2"}, {"incrbyfloat", "k", "1.5"}, {"setrange", "k", "0", "v"}, {"mset", "k", "v"},
+	{"del", "k"}, {"expire", "k", "10"}, {"persist", "k"}, {"rename", "k", "j"},
+	{"lpush", "k", "v"}, {"rpush", "k", "v"}, {"lpop", "k"}, {"rpop", "k"}, {"lset", "k", "0", "v"}, {"lrem", "k", "0", "v"}, {"ltrim", "k", "0", "1"},
+	{"sadd", "k", "v"}, {"srem", "k", "v"}, {"spop", "k"}, {"hset", "k", "f", "v"}, {"hdel", "k", "f"}, {"hincrby", "k", "f", "1"},
+	{"hsetnx", "k", "f", "v"}, {"zadd", "k", "1", "v"}, {"zrem", "k", "v"}, {"xadd", "k", "1-1", "f", "v"},
+}
+
+func VF_C05_writers_exclusive() {
+	c := c05WriterCases[vfChoice("case", len(c05WriterCases))]
+	m := hNewDb(2)
+	// the key exists with a deadline, so that every command has something to change
+	switch c[0][0] {
+	case 'l', 'r':
+		if c[0] == "rename" {
+			hExec(m, bs("set"), bs("k"), bs("1"))
+		} else {
+			hExec(m, bs("rpush"), bs("k"), bs("v"), bs("w"))
+		}
+	case 'h':
+		hExec(m, bs("hset"), bs("k"), bs("f"), bs("1"))
+	case 'z':
+		hExec(m, bs("zadd"), bs("k"), bs("1"), bs("v"))
+	case 'x':
+	case 's':
+		if c[0] == "sadd" || c[0] == "srem" || c[0] == "spop" {
+			hExec(m, bs("sadd"), bs("k"), bs("v"))
+		} else {
+			hExec(m, bs("set"), bs("k"), bs("1"))
+		}
+	default:
+		hExec(m, bs("set"), bs("k"), bs("1"))
+	}
+	hExec(m, bs("expire"), bs("k"), bs("1000"))
+	var args [][]byte
+	for _, a := range c {
+		args = append(args, bs(a))
+	}
+	m.locks.RLock("k")
+	done := false
+	vfSpawn(func() {
+		m.ExecCommand(context.Background(), args, nil)
+		done = true
+	})
+	vfSettle()
+	vfAssert(!done, c[0]+"-changes-the-key-under-a-shared-stripe")
+	m.locks.RUnLock("k")
+	vfSettle()
+	vfAssert(done, c[0]+"-completes-once-the-stripe-is-free")
+}
+
 func VF_C05_takes_stripe_a() { c05TakesStripe(0, 22) }
 func VF_C05_takes_stripe_b() { c05TakesStripe(22, 100) }
 
